@@ -87,6 +87,8 @@ def siblingKinds : List String := ["f1", "me", "if", "fe"]
 def parseTok (tok : String) : Option (Op ⊕ Nat) :=
   match tok.splitOn ":" with
   | ["T", k] => (parseNat k).map .inr
+  | ["L", "d"] => some (.inr 100)   -- OpenDebug / OpenTrace for the rest of the history: logging is not part of the model
+  | ["L", "t"] => some (.inr 100)   -- (it must not change anything a caller sees)
   | _ => (parseOp tok).map .inl
 
 /-- (observations in call order, state of target 0, state of target 1, target 1 was used) -/
@@ -94,7 +96,7 @@ def runTwo (ops : List (Op ⊕ Nat)) : List Obs × Option When × Option When ×
   let step := fun (acc : List Obs × Option When × Option When × Nat × Bool) (o : Op ⊕ Nat) =>
     let (obs, s0, s1, act, used) := acc
     match o with
-    | .inr k => (obs, s0, s1, k, used || k == 1)
+    | .inr k => if k == 100 then acc else (obs, s0, s1, k, used || k == 1)
     | .inl op =>
       let r := opStep (if act == 0 then s0 else s1) op
       let obs' := match r.2 with | some ob => ob :: obs | none => obs
@@ -114,7 +116,7 @@ def handle (toks : List String) : Option String :=
     if !(kinds.contains tgt) then some "bad-op" else   -- all mocker kinds share one model
     match ops.mapM parseTok with
     | some ops =>
-      if ops.any (fun o => match o with | .inr k => k > 1 || (k == 1 && !(siblingKinds.contains tgt)) | _ => false) then some "bad-op" else
+      if ops.any (fun o => match o with | .inr k => (k > 1 && k != 100) || (k == 1 && !(siblingKinds.contains tgt)) | _ => false) then some "bad-op" else
       let r := runTwo ops
       let o := if r.1.isEmpty then "-" else String.intercalate " " (r.1.map (showObs tgt))
       let st := if r.2.2.2 then s!"{showState r.2.1} || {showState r.2.2.1}" else showState r.2.1
